@@ -139,6 +139,34 @@ func Discharge(vcs []*FuncVC, opts RunOpts) {
 	}
 	close(ch)
 	wg.Wait()
+	// second chance for undecided obligations: an answer of "unknown"/"timeout" under a loaded machine is not a
+	// refutation; up to four of them are run again, side by side, with one and a half times the time. Only "unsat" changes
+	// anything, so a retry can never hide a violation the solvers can exhibit.
+	var again []job
+	for _, j := range jobs {
+		if !j.o.Cover && !j.o.OK && j.o.Result.Status != "sat" && !opts.Short[j.o.Name] && len(again) < 4 {
+			again = append(again, j)
+		}
+	}
+	if len(again) > 0 {
+		sem := make(chan struct{}, 4)
+		var wg2 sync.WaitGroup
+		for _, j := range again {
+			wg2.Add(1)
+			sem <- struct{}{}
+			go func(j job) {
+				defer wg2.Done()
+				defer func() { <-sem }()
+				r := RunQuery(opts.TmpDir, j.o.Name+".retry", j.vc.Query(j.o), opts.TimeoutS+opts.TimeoutS/2, opts.Solvers)
+				if r.Status == "unsat" {
+					r.Solver += "+retry"
+					j.o.Result = r
+					j.o.OK = true
+				}
+			}(j)
+		}
+		wg2.Wait()
+	}
 }
 
 func cmdVC(args []string) int {
